@@ -478,4 +478,77 @@ theorem truncateFrom_stale_low (c : Cfg) (s : Top) (n0 k : Nat) (hle : n0 ≤ s.
   · right
     rw [if_neg hg]
 
+/-! ### the exact-LRU versions (round 6, second increment): same specification -/
+
+/-- replacing the cached ids does not touch the invariant -/
+theorem TopInv.withCache {c : Cfg} {s : Top} {chain : List Block} (hi : TopInv c s chain)
+    (x : List Nat) : TopInv c ⟨withCache s.h x, s.d, s.tip⟩ chain :=
+  ⟨hi.good, ⟨hi.handle.1, hi.handle.2⟩, hi.linked, hi.tip⟩
+
+/-- **Refinement of the freeze loop with the exact LRU**: same appended blocks, same outcome -/
+theorem freezeLoopL_spec (cap : Nat) {c : Cfg} (get : Nat → Option Block) (stopped : Nat → Bool) :
+    ∀ (fuel n : Nat) (s : Top) (acc : List (Nat × Nat × Nat)) (chain : List Block),
+    TopInv c s chain → n = chain.length + 1 →
+    ∃ s', freezeLoopL cap c get stopped fuel n s acc =
+        (s', if (specRun get stopped fuel n (tipHash chain)).2
+             then .ok (acc ++ entries n (specRun get stopped fuel n (tipHash chain)).1) else .err) ∧
+      TopInv c s' (chain ++ (specRun get stopped fuel n (tipHash chain)).1)
+  | 0, n, s, acc, chain, hi, _ => by
+    refine ⟨s, ?_, ?_⟩
+    · simp [freezeLoopL, specRun, entries]
+    · simpa [specRun] using hi
+  | fuel + 1, n, s, acc, chain, hi, hn => by
+    unfold freezeLoopL specRun
+    by_cases hs : stopped n = true
+    · simp only [hs, if_true]
+      exact ⟨s, by simp [entries], by simpa using hi⟩
+    · simp only [hs, Bool.false_eq_true, if_false]
+      cases hg : get n with
+      | none =>
+        simp only
+        exact ⟨s, by simp [entries], by simpa using hi⟩
+      | some b =>
+        simp only
+        have htip : s.tip.map (·.hash) = tipHash chain := by rw [hi.tip]; rfl
+        rw [htip]
+        by_cases hm : mismatch (tipHash chain) b = true
+        · rw [if_pos hm, if_pos hm]
+          exact ⟨s, by simp, by simpa using hi⟩
+        · rw [if_neg hm, if_neg hm]
+          have hnum : ¬ s.h.number ≠ n := by rw [hi.number, hn]; simp
+          rw [if_neg hnum]
+          -- the state after the append holds `chain ++ [b]`
+          obtain ⟨hg', hk'⟩ := append_good_aux (max := c.max) (stored c b) hi.good hi.handle
+          have hinv : TopInv c ⟨(appendL cap c.max s.h s.d (stored c b)).1,
+              (appendL cap c.max s.h s.d (stored c b)).2, some b⟩ (chain ++ [b]) := by
+            have hg2 : Good (appendL cap c.max s.h s.d (stored c b)).2
+                (List.map (stored c) chain ++ [stored c b]) := hg'
+            refine ⟨by simpa using hg2, ⟨hk'.1, hk'.2⟩, ?_, by simp⟩
+            apply hi.linked.snoc
+            intro t ht
+            have : tipHash chain = some t.hash := by simp [tipHash, ht]
+            rw [this] at hm
+            exact (by simpa [mismatch] using hm : t.hash = b.parent).symm
+          obtain ⟨s', hrun, hinv'⟩ := freezeLoopL_spec cap get stopped fuel (n + 1) _
+            (acc ++ [(b.hash, n, b.txs)]) (chain ++ [b]) hinv (by simp [hn])
+          rw [tipHash_snoc] at hrun hinv'
+          refine ⟨s', ?_, by simpa using hinv'⟩
+          rw [hrun]
+          simp only [entries, List.append_assoc, List.singleton_append]
+
+
+/-- `Freezer::freeze` with the exact LRU, for ANY pre-lock read that is current -/
+theorem freezeL_spec (cap : Nat) {c : Cfg} {s : Top} {chain : List Block} (hi : TopInv c s chain)
+    (thr : Nat) (get : Nat → Option Block) (stopped : Nat → Bool) :
+    let r := specRun get stopped (thr - (chain.length + 1)) (chain.length + 1) (tipHash chain)
+    (freezeL cap c s thr get stopped).2 =
+        (if r.2 then .ok (entries (chain.length + 1) r.1) else .err) ∧
+      TopInv c (freezeL cap c s thr get stopped).1 (chain ++ r.1) := by
+  obtain ⟨s', h1, h2⟩ := freezeLoopL_spec cap (c := c) get stopped (thr - (chain.length + 1))
+    (chain.length + 1) s [] chain hi rfl
+  unfold freezeL freezeFromL
+  rw [hi.number, h1]
+  exact ⟨by simp, h2⟩
+
+
 end CkbVerif.FreezerTop
